@@ -19,8 +19,12 @@ InCases == {[t |-> "in", family |-> fa, write |-> MCWritePaths[w], field |-> fm[
               : fa \in Families, w \in DOMAIN MCWritePaths, fm \in FieldMut}
 OutCases == {[t |-> "out", family |-> fa, read |-> MCReadPaths[r], field |-> fm[1], mutation |-> fm[2]]
               : fa \in Families, r \in DOMAIN MCReadPaths, fm \in FieldMut}
+\* "scalars": a model without set and map fields - a Go struct comparable with ==, whose pointer field must still
+\* be compared by value
 LawCases == {[t |-> "law", family |-> fa, field |-> fm[1], mutation |-> fm[2], shape |-> sh]
               : fa \in Families, fm \in FieldMut, sh \in {"full", "empty", "emptyAlloc"}}
+            \cup {[t |-> "law", family |-> "scalars", field |-> fm[1], mutation |-> fm[2], shape |-> sh]
+              : fm \in {<<"scalar", "overwrite">>, <<"ptr", "writeThrough">>}, sh \in {"full", "empty", "emptyAlloc"}}
 ASSUME \A c \in LawCases : PrintT(<<"CASE", ToJson(c)>>)
 ASSUME \A c \in InCases : PrintT(<<"CASE", ToJson(c)>>)
 ASSUME \A c \in OutCases : PrintT(<<"CASE", ToJson(c)>>)
